@@ -49,11 +49,14 @@ WindowOK(outs, w) ==
   /\ \A i \in DOMAIN outs : ~outs[i].inv => \E j \in DOMAIN w : Satisfies(outs[i], w[j])
   /\ \A i \in DOMAIN outs : outs[i].inv => \A j \in DOMAIN w : ~Satisfies(outs[i], w[j])
 
+\* The messages of a step are a prefix of what is available to it - and not the empty one: a step that passes has looked
+\* at least at the first message after its inputs (a step that only forbids would otherwise forbid nothing).
 RECURSIVE PassFrom(_, _, _)
 PassFrom(steps, k, carry) ==
   IF k > Len(steps) THEN TRUE
   ELSE LET avail == carry \o Seen(steps[k]) IN
-       \E n \in 0..Len(avail) :
+       \E n \in 1..Len(avail) :
+          /\ \E j \in 1..n : avail[j] # Noise
           /\ WindowOK(steps[k].outs, SubSeq(avail, 1, n))
           /\ PassFrom(steps, k + 1, SubSeq(avail, n + 1, Len(avail)))
 
